@@ -11,7 +11,7 @@ use std::process::{Command, Stdio};
 use std::time::{Duration, Instant};
 
 pub const OPS: [&str; 7] = ["parse", "print", "debug", "clone", "compare", "drop", "evaluate"];
-pub const CONSTRUCTS: [&str; 64] = [
+pub const CONSTRUCTS: [&str; 68] = [
     "neg-chain", "not-chain", "add-left-deep", "and-left-deep", "eq-left-deep", "add-right-nested", "builtin-call-nested", "list-nested", "map-nested", "if-in-condition", "if-else-chain", "index-chain",
     "bitand-left-deep", "lt-left-deep", "contains-nested", "if-in-then", "some-none-nested", "list-flat", "map-flat", "string-long",
     // long but flat inputs whose processing must be iterative
@@ -23,6 +23,7 @@ pub const CONSTRUCTS: [&str; 64] = [
     "year-nested", "month-nested", "week-nested", "day-nested", "hour-nested", "minute-nested", "second-nested",
     // mixtures and further flat inputs
     "mixed-nesting", "numeric-index-chain", "map-in-list-nested", "if-in-else-with-and", "symbol-index-chain", "long-comment", "long-whitespace", "list-flat-of-strings", "map-flat-long-keys", "in-nested",
+    "list-flat-of-lists", "list-flat-of-maps", "map-flat-of-lists", "add-of-flat-calls",
 ];
 /// constructs probed with `parse` only (their evaluation needs a ruleset or is the same tree as another construct),
 /// and rule texts probed through Rule::parse
@@ -77,6 +78,10 @@ pub fn text_for(construct: &str, n: usize) -> String {
         "long-whitespace" => format!("i1 +{}i1", " \t\n".repeat(n * 4)),
         "list-flat-of-strings" => format!("[{}\"z\"]", "\"a\\n\", ".repeat(n)),
         "map-flat-long-keys" => format!("{{{}z: i1}}", (0..n).map(|i| format!("a_rather_long_key_name_number_{i}: none, ")).collect::<String>()),
+        "list-flat-of-lists" => format!("[{}[]]", "[i1, none], ".repeat(n)),
+        "list-flat-of-maps" => format!("[{}{{}}]", "{a: i1, b: \"s\"}, ".repeat(n)),
+        "map-flat-of-lists" => format!("{{{}z: []}}", (0..n).map(|i| format!("k{i}: [i1, [i2]], ")).collect::<String>()),
+        "add-of-flat-calls" => format!("[{}int(i1)].0 + i1", "trim(\"a\"), ".repeat(n)),
         "list-flat" => format!("[{}i1]", "i1, ".repeat(n)),
         "map-flat" => format!("{{{}z: i1}}", (0..n).map(|i| format!("k{i}: i1, ")).collect::<String>()),
         "string-long" => format!("\"{}\"", "0123456789".repeat(n)),
@@ -354,7 +359,7 @@ pub fn drive(tier: Tier) -> i32 {
         exhaustive_part: "the full grid operations x constructs x stacks (x profiles in the thorough tier)".into(),
         ..Default::default()
     };
-    fin.floors.push(floor(format!("cells explored: {}", results.len()), results.len() >= 7 * 64 * 2));
+    fin.floors.push(floor(format!("cells explored: {}", results.len()), results.len() >= 7 * 68 * 2));
     fin.extras.insert("threshold_table".into(), json!(table));
     fin.extras.insert("cells_crashing".into(), json!(crashing));
     fin.extras.insert("cells_surviving_1e5".into(), json!(results.iter().filter(|r| r.crashed_at.is_none() && r.survived >= 100_000).count()));
